@@ -546,8 +546,8 @@ def file(node, filename, mode="a", skip_black=False):
     :param skip_black: Skip formatting with black
     :type skip_black: ```bool```
 
-    :returns: None
-    :rtype: ```NoneType```
+    :returns: Whether the contents of the file changed
+    :rtype: ```bool```
     """
     if isinstance(node, (ClassDef, FunctionDef)):
         node = Module(body=[node], type_ignores=[], stmt=None)
@@ -564,12 +564,16 @@ def file(node, filename, mode="a", skip_black=False):
         )
     # Never truncate the target before the new contents are safely on disk: write a
     # sibling temporary file, then atomically move it over `filename`.
-    if mode.startswith("a") and path.isfile(filename):
+    existing = None
+    if path.isfile(filename):
         with open(filename, "rt") as f:
             existing = f.read()
+    if mode.startswith("a") and existing is not None:
         if existing and not existing.endswith("\n"):
             existing += "\n"  # do not glue the addition onto an unterminated last line
         src = existing + src
+    elif existing == src:
+        return False  # already up to date: leave the file alone
     tmp_filename = "{}.doctrans.tmp".format(filename)
     try:
         with open(tmp_filename, "wt") as f:
@@ -581,6 +585,7 @@ def file(node, filename, mode="a", skip_black=False):
         if path.isfile(tmp_filename):
             remove(tmp_filename)
         raise
+    return True
 
 
 def function(
